@@ -36,6 +36,10 @@ type c13Cfg struct {
 	File    bool `json:"file"`
 	MaxLive int  `json:"max_live"`
 	MaxNew  int  `json:"max_new"`
+	// Warm: the exploration starts from a pool whose every frame holds an unpinned dirty page (reached by
+	// the operation prefix c13WarmPrefix, which is checked like any other history): evictions, the clock
+	// hand and id reuse are then within a few operations
+	Warm bool `json:"warm"`
 }
 
 type c13Inst struct {
@@ -472,7 +476,16 @@ func c13Configs(thorough bool) []c13Cfg {
 			out = append(out, c13Cfg{Pool: pool, File: file, MaxLive: 3, MaxNew: 1000})
 		}
 	}
+	out = append(out, c13Cfg{Pool: 2, MaxLive: 4, MaxNew: 1000, Warm: true}, c13Cfg{Pool: 3, MaxLive: 5, MaxNew: 1000, Warm: true})
 	return out
+}
+
+func c13WarmPrefix(pool int) []string {
+	var ops []string
+	for i := 0; i < pool; i++ {
+		ops = append(ops, "New(0)", fmt.Sprintf("Unpin(0,%d,1)", i))
+	}
+	return ops
 }
 
 func c13Depth(thorough bool, pool int) int {
@@ -503,7 +516,16 @@ func init() {
 				if cfg.File {
 					name += "file"
 				}
-				core.BFS(c, core.SeqConfig{Name: name, Params: cfg, Fresh: func() core.Instance { return newC13(cfg) }, MaxDepth: c13Depth(c.Thorough(), cfg.Pool), SplitDepth: 2})
+				sc := core.SeqConfig{Name: name, Params: cfg, Fresh: func() core.Instance { return newC13(cfg) }, MaxDepth: c13Depth(c.Thorough(), cfg.Pool), SplitDepth: 2}
+				if cfg.Warm {
+					sc.Name += "-warm"
+					sc.Seeds = [][]string{c13WarmPrefix(cfg.Pool)}
+					sc.MaxDepth = 5
+					if c.Thorough() {
+						sc.MaxDepth = 6
+					}
+				}
+				core.BFS(c, sc)
 			}
 		},
 		Replay: func(raw json.RawMessage) (string, bool) {
